@@ -53,6 +53,12 @@ def BC(a, b, c):
     return x, r
 
 
+@as_function_node("o", validate_output_labels=False)
+def Boom(x):
+    """always raises: used to probe the library's cache policy after a failed run"""
+    raise RuntimeError("boom")
+
+
 BODIES = {
     "B4": {"cls": "B4", "inputs": ["a", "b", "c", "d"], "defaults": {"d": "dd"}, "outputs": ["o"],
            "sym": {"o": "g"}},
